@@ -104,6 +104,12 @@ MUTANTS = {
         ('open-counter-not-advanced', 'src/passthrough/sync_io.rs', "        let handle = self.next_handle.fetch_add(1, Ordering::Relaxed);\n        self.handle_map.insert(handle, data);\n\n        let mut opts", "        let handle = self.next_handle.fetch_add(0, Ordering::Relaxed);\n        self.handle_map.insert(handle, data);\n\n        let mut opts"),
         ('create-handle-under-parent', 'src/passthrough/sync_io.rs', "HandleData::new(entry.inode, file, args.flags);", "HandleData::new(parent, file, args.flags);"),
     ],
+    'C09': [
+        ('lookup-resurrects-zero', 'src/passthrough/mod.rs', "                    if curr == 0 {\n                        continue 'search;\n                    }\n", ""),
+        ('lookup-no-reprobe-under-lock', 'src/passthrough/mod.rs', 'match InodeMap::get_alt_locked(inodes.deref(), &id, handle_opt.as_ref()) {\n                Some(data) => {', 'match None::<Arc<InodeData>> {\n                Some(data) => {'),
+        ('lookup-no-increment', 'src/passthrough/mod.rs', 'let new = curr.saturating_add(1);', 'let new = curr;'),
+        ('forget-remove-at-le-1', 'src/passthrough/mod.rs', "                    if new == 0 {", "                    if new <= 1 {"),
+    ],
     'C06x': [],
     'C07': [
         ('index-shift-48', V, "const VFS_INDEX_SHIFT: u8 = 56;", "const VFS_INDEX_SHIFT: u8 = 48;"),
